@@ -647,9 +647,11 @@ def main():
                                                           T('tup', bl, T('i', n=16)), T('res', T('ph', T('tup0')), T('i', n=8))])]
     # two helper attributes on one member / variant, in both orders
     it = cat_item()
-    fs = [Field('a', u32, compact=True, rename='r1'), Field('b', T('u', n=64), compact=True, rename='r2'), Field('c', u8, skip=True, rename='r3'),
-          Field('d', u16, skip=True, rename='r4'), Field('e', bl)]
-    for f, o in zip(fs, ['fwd', 'rev', 'fwd', 'rev', 'fwd']):
+    # (documented, and the helper attributes come BEFORE the doc lines; a documented marker member too)
+    fs = [Field('a', u32, compact=True, rename='r1', docs=[' doc of a']), Field('b', T('u', n=64), compact=True, rename='r2', docs=[' doc of b', ' more']),
+          Field('c', u8, skip=True, rename='r3', docs=[' doc of c']), Field('d', u16, skip=True, rename='r4'), Field('e', bl),
+          Field('m', T('ph', u8), docs=[' a documented marker']), Field('n', T('u', n=128), docs=[' after the marker'])]
+    for f, o in zip(fs, ['fwd', 'rev', 'fwd', 'rev', 'fwd', 'fwd', 'fwd']):
         f.attr_order = o
     it.fields = fs
     it = cat_item()
